@@ -319,7 +319,12 @@ def iteritems(val: t.Any) -> t.Iterable[tuple[t.Any, t.Any]]:
 
 def _is_iterable_of_pairs(val: t.Any) -> tuple[bool, t.Any]:
     cls = val.__class__
-    if not inspection.isiterabletype(cls) or inspection.ismappingtype(cls):
+    # Named tuples are structured objects: their first field is not a "first element".
+    if (
+        not inspection.isiterabletype(cls)
+        or inspection.ismappingtype(cls)
+        or inspection.isnamedtuple(cls)
+    ):
         return False, val
 
     if inspection.issequencetype(cls):
@@ -328,7 +333,7 @@ def _is_iterable_of_pairs(val: t.Any) -> tuple[bool, t.Any]:
         return is_pairs, val
 
     it = peekable(val)
-    peek = it.peek()
+    peek = it.peek(())
     is_pairs = inspection.iscollectiontype(peek.__class__) and len(peek) == 2
     return is_pairs, it
 
